@@ -433,6 +433,30 @@ def translate():
         guarded = [n for st in od.body if isinstance(st, ast.If) and ast.unparse(st.test) == 'state is None' for n in ast.walk(st)
                    if isinstance(n, ast.Attribute) and ast.unparse(n) == 'self.state']
         on_disconnect_param = ok and len(reads) == len(guarded)
+    # ---- initial values: what each `__init__` of the per-connection object graph assigns (C17: a used object after connect())
+    init_values = []
+    for cname, cnode in (('State', state_cls), ('WebsocketStream', st_cls), ('FrameParser', fp_cls), ('Parser', pa_cls), ('WebsocketSession', se_cls)):
+        init = None
+        for fn in (cnode.body if cnode else []):
+            if isinstance(fn, ast.FunctionDef) and fn.name == '__init__':
+                init = fn
+        for st in (init.body if init else []):       # top-level statements of __init__ only (no conditionals)
+            if (isinstance(st, ast.Assign) and len(st.targets) == 1 and isinstance(st.targets[0], ast.Attribute)
+                    and isinstance(st.targets[0].value, ast.Name) and st.targets[0].value.id == 'self'):
+                init_values.append((cname, st.targets[0].attr, ast.unparse(st.value)))
+    pa_init = None
+    for fn in (pa_cls.body if pa_cls else []):
+        if isinstance(fn, ast.FunctionDef) and fn.name == '__init__':
+            pa_init = fn
+    parser_init_calls_reset = bool(pa_init and any(isinstance(st, ast.Expr) and ast.unparse(st.value) == 'self.reset()' for st in pa_init.body))
+    pa_reset = find_func(pa_cls, 'reset') if pa_cls else None
+    parser_reset_fresh = bool(pa_reset and [ast.unparse(st) for st in pa_reset.body if not (isinstance(st, ast.Expr) and isinstance(st.value, ast.Constant))]
+                              == ['self._gen = self.parse()', 'self._awaiting = next(self._gen)'])
+    fp_init = None
+    for fn in (fp_cls.body if fp_cls else []):
+        if isinstance(fn, ast.FunctionDef) and fn.name == '__init__':
+            fp_init = fn
+    fp_init_calls_super = bool(fp_init and any(isinstance(st, ast.Expr) and ast.unparse(st.value).endswith('.__init__()') and 'super' in ast.unparse(st.value) for st in fp_init.body))
     facts['ast'] = dict(structure=structure, class_level=class_level,header_sep=ru[0], header_max=ru[1], proxy_sep=pru[0], proxy_max=pru[1],
                         texts=texts, state_attrs=state_attrs, ws_writes=ws_method_writes,
                         session_writes=se_writes, stream_writes=st_writes, fp_writes=fp_writes,
@@ -565,6 +589,15 @@ def sendCloseHandlers : List String := [{', '.join(lean_str(h) for h in structur
 def exitStateReads : List (String × String × String) := [{', '.join('(%s, %s, %s)' % (lean_str(a), lean_str(b), lean_str(c)) for a, b, c in exit_state_reads)}]
 /-- `WebSocket.on_disconnect(self, state=None)` acts only on its `state` argument (`self.state` is read only as the default) -/
 def onDisconnectOnParam : Bool := {'true' if on_disconnect_param else 'false'}
+/-- (class, attribute, initialiser expression) for every top-level `self.<attribute> = <expression>` of the `__init__` methods of
+    `WebSocket.State`, `WebsocketStream`, `FrameParser`, `Parser`, `WebsocketSession` -/
+def initValues : List (String × String × String) :=
+  [{', '.join('(%s, %s, %s)' % (lean_str(a), lean_str(b), lean_str(c)) for a, b, c in init_values)}]
+/-- `Parser.__init__` ends by calling `self.reset()`; `reset` is exactly `self._gen = self.parse(); self._awaiting = next(self._gen)`;
+    `FrameParser.__init__` calls its super-class `__init__` -/
+def parserInitCallsReset : Bool := {'true' if parser_init_calls_reset else 'false'}
+def parserResetFresh : Bool := {'true' if parser_reset_fresh else 'false'}
+def frameParserInitCallsSuper : Bool := {'true' if fp_init_calls_super else 'false'}
 /-- keyword arguments `persist` forwards to `connect`: (keyword, variable) -/
 def persistConnectKw : List (String × String) := [{', '.join('(%s, %s)' % (lean_str(a), lean_str(b)) for a, b in persist_kw)}]
 
